@@ -29,9 +29,10 @@ def splitAux : List Char → List Char → List (List Char)
 
 def splitLines (text : List Char) : List (List Char) := splitAux [] text
 
-/-- Python `str.isspace()` for code points below U+0100 -/
+/-- Python `str.isspace()` for code points below U+0100, and the two line separators above -/
 def isSpace (c : Char) : Bool :=
   c == ' ' || (0x09 ≤ c.val && c.val ≤ 0x0D) || (0x1C ≤ c.val && c.val ≤ 0x1F) || c.val == 0x85 || c.val == 0xA0
+  || c.val == 0x2028 || c.val == 0x2029
 
 def rstrip (s : List Char) : List Char := (s.reverse.dropWhile isSpace).reverse
 
